@@ -258,7 +258,7 @@ package tengo
 // module names are chosen by the embedder when registering the module
 //@ func (*BuiltinModule).AsImmutableMap
 //@   props C06 C09
-//@   requires len(moduleName) <= MaxStringLen
+//@   assumes registered_name: len(moduleName) <= MaxStringLen
 //@   assigns nothing
 
 
@@ -598,6 +598,16 @@ package tengo
 //@ func updateConstIndexes
 //@   mode assumed needs the instruction-stream well-formedness predicate
 //@   assigns insts[*]
+
+// decode fix-up: gob rebuilds booleans and undefined as fresh structs; they are replaced by the engine's
+// sentinels (which the VM compares by identity); every other kind of constant is kept as decoded
+//@ func fixDecodedObject
+//@   mode panics-allowed
+//@   assigns *
+//@   ensures bool_sentinel{C12}: is(o, *Bool) ==> res1 == nil && res0 == boolobj(old(o.(*Bool).value))
+//@   ensures undefined_sentinel{C12}: is(o, *Undefined) ==> res1 == nil && res0 == UndefinedValue
+//@   ensures kept{C12}: res1 == nil && !is(o, *Bool) && !is(o, *Undefined) && !is(o, *ImmutableMap) ==> same(res0, o)
+//@   ensures failed{C12}: res1 != nil ==> res0 == nil
 
 // the module name of an immutable map is a function of the map alone (its "__module_name__" entry)
 //@ func inferModuleName
